@@ -342,6 +342,13 @@ void executeRun(const Desc& d, Obs& o) {
         reg.installPlugin(sp);
     }
     reg.installPlugin(leak);
+    {   // removals by name, at any chain position (the leak plugin sits on top of the scripted ones)
+        Vec<size_t> rm; for (size_t p = 0; p < RS.pluginGroups.size(); p++) if (d.groups[(size_t)RS.pluginGroups[p]].arg(1)) rm.push_back(p);
+        if (d.pi("remove_rev")) std::reverse(rm.begin(), rm.end());
+        for (size_t i = 0; i < rm.size(); i++) { reg.removePluginByName(d.groups[(size_t)RS.pluginGroups[rm[i]]].sarg(0)); fired("plugin_removed"); }
+        o.pluginCount = reg.countPlugins(); o.pluginCountExpected = (int)(RS.pluginGroups.size() - rm.size()) + 1;
+        for (size_t i = 0; i < rm.size(); i++) if (reg.getPluginByName(d.groups[(size_t)RS.pluginGroups[rm[i]]].sarg(0)) != 0) o.removedStillFound++;
+    }
 
     Vec<Str> av; buildArgv(d, av);
     Vec<const char*> avp; for (size_t i = 0; i < av.size(); i++) avp.push_back(av[i].c_str());
